@@ -119,6 +119,21 @@ fn placements(spin: &[String]) -> Vec<(&'static str, Vec<String>, Vec<String>)> 
         ("fold", "(1, 2).fold(0, |acc, fv| pcb(fv))"),
         ("sort-key", "[3, 1, 2].sort(pcb)"),
         ("map-update", "{a: 1}.update('a', pcb)"),
+        ("map-sort-key", "{a: 1, b: 2}.sort(|k, v| pcb(v))"),
+        ("tuple-sort-copy-key", "(3, 1, 2).sort_copy(pcb)"),
+        ("min-key", "(1, 2).min(pcb)"),
+        ("max-key", "[1, 2].max(pcb)"),
+        ("min-max-key", "(1, 2).min_max(pcb)"),
+        ("find", "(1, 2).find(pcb)"),
+        ("any", "[1, 2].any(pcb)"),
+        ("all", "[1, 2].all(pcb)"),
+        ("position", "(1, 2).position(pcb)"),
+        ("list-retain", "[1, 2].retain(pcb)"),
+        ("list-transform", "[1, 2].transform(pcb)"),
+        ("take-while", "(1, 2).take(pcb).to_tuple()"),
+        ("generate", "iterator.generate((|| pcb(0)), 2).to_tuple()"),
+        ("string-split-fn", "'a,b'.split(pcb).to_tuple()"),
+        ("consume-fn", "(1, 2).consume(pcb)"),
     ] {
         let mut d = vec![s("pcb = |cbv|")];
         d.extend(indent(spin, 1));
@@ -390,7 +405,7 @@ pub fn run(args: &Args) -> i32 {
     report.cov("max_timeout_time_over_limit", max_ratio);
     report.cov("terminating_controls", n_controls);
     report.cov("exhaustive", true);
-    report.cov("rule", format!("{} spin shapes x 29 placements x 5 try/catch wrappings x limits {:?} ms; virtual clock: 100 ns per executed instruction (hook H3), tick budget 10 x limit; oracle: ErrorKind::Timeout before virtual time limit x {:.1}, no catch block output, H1 state clean and a probe script runs afterwards; plus terminating controls under 4 limits vs no limit. distinct_nontrivial = distinct (outcome, time/limit decile, spin, top-level?)", spins().len(), limits, 1.0 + slack));
+    report.cov("rule", format!("{} spin shapes x 44 placements x 5 try/catch wrappings x limits {:?} ms; virtual clock: 100 ns per executed instruction (hook H3), tick budget 10 x limit; oracle: ErrorKind::Timeout before virtual time limit x {:.1}, no catch block output, H1 state clean and a probe script runs afterwards; plus terminating controls under 4 limits vs no limit. distinct_nontrivial = distinct (outcome, time/limit decile, spin, top-level?)", spins().len(), limits, 1.0 + slack));
     report.cov("samples", json!([cases[0].3, cases[n_cases / 2].3, cases[n_cases - 1].3]));
     report.assume("virtual time removes only the dependence on host speed: the runtime's own deadline / adaptive interval logic runs unmodified on the virtual Instant; real-time slack on a loaded host is not decided");
     report.assume("spins that stay inside one native call are excluded by the property");
